@@ -1,0 +1,30 @@
+//go:build verif
+
+package items
+
+import (
+	"github.com/goccmack/gocc/internal/ast"
+	"github.com/goccmack/gocc/internal/verifhook"
+)
+
+// verifCheckClasses hands the literals/ranges expected by the items of this
+// set, and the rune classes derived from them, to the verification hook.
+func (this *ItemSet) verifCheckClasses() {
+	expected := make([][2]rune, 0, len(this.Items))
+	for _, item := range this.Items {
+		if item.Reduce() {
+			continue
+		}
+		switch s := item.ExpectedSymbol().(type) {
+		case *ast.LexCharRange:
+			expected = append(expected, [2]rune{s.From.Val, s.To.Val})
+		case *ast.LexCharLit:
+			expected = append(expected, [2]rune{s.Val, s.Val})
+		}
+	}
+	classes := make([][2]rune, 0, this.SymbolClasses.Size())
+	for _, c := range this.SymbolClasses.List() {
+		classes = append(classes, [2]rune{c.From, c.To})
+	}
+	verifhook.Classes(expected, classes)
+}
